@@ -1267,10 +1267,17 @@ def run(ctx):
     res.rule = ('(tree, format strings, valid value) triples on the real datatype classes: export_value -> encode_msg_frame '
                 '(json.dumps) -> decode_msg (json.loads) -> import_value on the node datatype and on get_datatype(json round trip of '
                 'export_datatype()); to_string / from_string / to_string; SecopClient.updateValue -> str(CacheItem) -> '
-                'setParameterFromString against a recording request() -> import_value of the sent value on the node datatype. '
+                'setParameterFromString against a recording request() -> import_value of the sent value on the node datatype; '
+                'execCommand(cached value) -> the do line -> import_value / export_value on the node datatype -> the done line '
+                '-> the result execCommand returns; str(cache entry) after an error update. '
                 'Values from the value set itself: limits, grid points far from zero (incl. the region where the grid law fails), '
                 'empty/maximal containers, every enum member, quote/backslash/newline/non-ASCII strings, all byte values, structs '
-                'without optional members and in shuffled order, one-member tuples.  Non-trivial = a valid value (Lean validB) of a '
+                'without optional members and in shuffled order, one-member tuples; values as large as the type allows (arrays '
+                'filled to maxlen, strings / blobs / enum names of the lengths around 2^k and 10^k up to 100 000: text forms and '
+                'lines of more than 1000 / 10 000 / 100 000 characters); string contents and struct member names from every class '
+                'of characters a text layer may treat specially (unicodedata: unstable under NFC / NFD / NFKC / NFKD, composing '
+                'sequences, misordered marks, case mappings, separators, format / private-use / unassigned, astral; ASCII control '
+                'characters); units on float leaves; TextType / LimitsType / StatusType.  Non-trivial = a valid value (Lean validB) of a '
                 'container type, or of a leaf type other than bool')
     rng = ctx.rng
     big = ctx.tier == 'thorough' or ctx.escalated
